@@ -29,7 +29,8 @@ RULE = ("approx (seed-dependent): exhaustive small sets (below); random / plante
         "brute force, every k in 1..m+1: m <= 5 exhaustive (below) + seed-dependent random/planted/cyclic (n <= 4, cyclic "
         "n <= m), m = 1 and m = 2 included; m >= 6: a fixed core of 3 000 profiles (constant seed) + regression profiles + "
         "10 000 (thorough 23 000) seed-dependent profiles, m = 6-8 (thorough 6-9), odd and even m; the corpus (77 inputs of "
-        "the repaired defect KF-C18-a, the cap defect 07cd506) runs first. "
+        "the repaired defect KF-C18-a, the cap defect 07cd506) runs first; every brute-force case is also compared with "
+        "the mirror bf_algo, and 150 (thorough 2 500) seed-dependent profiles with m = 9-13 (thorough 9-15) with the mirror only. "
         "non-trivial = reference optimum >= 2 axes")
 EXHAUSTIVE = {"quick": "both functions: all sets of 1-2 distinct strict orders over m<=3, with the ids 1..m and with the ids 0..m-1; brute force: every set of <= 3 strict "
                        "orders over m = 4 and m = 5 containing the identity ranking (= every profile of <= 3 orders up to "
@@ -41,7 +42,12 @@ TRUSTED = ["(R) not verified, compared with the verified reference min_partition
            "through the verified checker partition_check at every size: k_alt_partition_approx, longest_single_peaked_axis "
            "(Erdelyi-Lackner-Pfandler dynamic programme: get_L_sets, eligible_alternatives, last_check, place, case_2, "
            "case_3, check_case_4, boundary), k_alternative_partition_brut_force (dfs, extend, "
-           "singleton_pair_combinations); termination only observed by the watchdog"]
+           "singleton_pair_combinations); termination only observed by the watchdog",
+           "k_alternative_partition_brut_force is additionally MIRRORED (Model/PartitionAlgo.v, bf_algo) and compared with "
+           "its mirror on every brute-force case (None-ness and number of axes; identical partitions counted in the "
+           "distribution): the mirror is proved sound for every size (bf_sound) but its minimality only on small domains "
+           "(bf_complete_min_partial_small), so minimality of the code rests on the comparison with min_partition; the "
+           "iteration order of the Python L-sets is observed in the worker and handed to the mirror as its order parameter"]
 ASSUMPTIONS = ["data_type = soc; every order ranks every alternative exactly once; >= 1 alternative, >= 1 order; orders "
                "distinct; k >= 1 (quantifier of C18)",
                "k_alternative_partition_brut_force returns ONE partition (a list of axes) or None - the docstring's "
@@ -50,7 +56,7 @@ ASSUMPTIONS = ["data_type = soc; every order ranks every alternative exactly onc
 COVER_FILES = ["properties/subdomains/ordinal/singlepeaked/k_alternative_partition.py",
                "properties/subdomains/ordinal/singlepeaked/k_alternative_deletion.py"]
 COVER_TIMEOUT_S = 60
-TIMEOUT_S = 30.0
+TIMEOUT_S = 120.0
 CHUNK = 8
 THEOREMS_FOR_OP = {"c18.algo": "bf_sound / bf_complete_min (mirror Model/PartitionAlgo.v)",
                    "c18.approx": "partition_check_correct / check_valid_bound",
@@ -268,7 +274,7 @@ def generate(tier, seed):
     out[:] = merged
 
     # ---- brute force against its MIRROR only (no reference optimum at these sizes): m = 9..13 (thorough 9..15)
-    for i in range(250 if not thorough else 2500):
+    for i in range(150 if not thorough else 2500):
         m = rng.randint(9, 13 if not thorough else 15)
         alts = rand_ids(rng, m)
         votes, mults, style = mixed_votes(rng, i, m, alts)
